@@ -443,8 +443,14 @@ fn exec_from_json(v: &Value) -> Option<Execution> {
     })
 }
 
-/// run `f` in a forked child and return what it wrote (None if the child died)
-fn in_child<F: FnOnce() -> String>(f: F) -> Result<String, String> {
+/// a forked child that is still running (or finished but not yet collected)
+struct Child {
+    pid: i32,
+    fd: i32,
+}
+
+/// fork; the child runs `f`, writes its result to a pipe and _exits
+fn spawn_child<F: FnOnce() -> String>(f: F) -> Result<Child, String> {
     let mut fds = [0i32; 2];
     unsafe {
         if pipe(fds.as_mut_ptr()) != 0 {
@@ -452,6 +458,8 @@ fn in_child<F: FnOnce() -> String>(f: F) -> Result<String, String> {
         }
         let pid = fork();
         if pid < 0 {
+            close(fds[0]);
+            close(fds[1]);
             return Err("fork failed".into());
         }
         if pid == 0 {
@@ -470,18 +478,25 @@ fn in_child<F: FnOnce() -> String>(f: F) -> Result<String, String> {
             _exit(0);
         }
         close(fds[1]);
+        Ok(Child { pid, fd: fds[0] })
+    }
+}
+
+/// read the child's report to EOF and reap it
+fn collect_child(c: Child) -> Result<String, String> {
+    unsafe {
         let mut buf = Vec::new();
         let mut chunk = [0u8; 65536];
         loop {
-            let n = read(fds[0], chunk.as_mut_ptr(), chunk.len());
+            let n = read(c.fd, chunk.as_mut_ptr(), chunk.len());
             if n <= 0 {
                 break;
             }
             buf.extend_from_slice(&chunk[..n as usize]);
         }
-        close(fds[0]);
+        close(c.fd);
         let mut status = 0i32;
-        waitpid(pid, &mut status, 0);
+        waitpid(c.pid, &mut status, 0);
         if status != 0 {
             return Err(format!("child process ended with wait status {:#x} (crash or abort under this schedule)", status));
         }
@@ -489,8 +504,11 @@ fn in_child<F: FnOnce() -> String>(f: F) -> Result<String, String> {
     }
 }
 
-fn execute(threads: &[Vec<Call>], prefix: &[usize]) -> Execution {
-    let r = in_child(|| exec_to_json(&execute_here(threads, prefix)).to_string());
+fn in_child<F: FnOnce() -> String>(f: F) -> Result<String, String> {
+    collect_child(spawn_child(f)?)
+}
+
+fn parse_execution(r: Result<String, String>) -> Execution {
     let died = |why: String| Execution { trace: vec![], results: vec![], inits: BTreeMap::new(), initialisers: BTreeMap::new(), blocked_seen: false, derefs: BTreeMap::new(), abort: Some(why), points: 0 };
     match r {
         Ok(text) => match serde_json::from_str::<Value>(&text).ok().and_then(|v| exec_from_json(&v)) {
@@ -499,6 +517,10 @@ fn execute(threads: &[Vec<Call>], prefix: &[usize]) -> Execution {
         },
         Err(e) => died(e),
     }
+}
+
+fn execute(threads: &[Vec<Call>], prefix: &[usize]) -> Execution {
+    parse_execution(in_child(|| exec_to_json(&execute_here(threads, prefix)).to_string()))
 }
 
 /// single-threaded reference results, computed in a fresh process as well
@@ -569,39 +591,64 @@ impl<'a> Explorer<'a> {
         }
     }
 
-    fn explore(&mut self, prefix: Vec<usize>) {
-        if self.executions >= self.cap || self.t0.elapsed() > self.wall_cap {
-            self.capped = true;
-            return;
-        }
-        let x = execute(self.threads, &prefix);
-        self.check(&x);
-        if x.abort.is_some() {
-            return;
-        }
-        let ch = choices(&x);
-        // preemptions used before each point
-        let mut used = 0usize;
-        let mut before = Vec::with_capacity(x.trace.len());
-        for c in &x.trace {
-            before.push(used);
-            if c.running_enabled && c.chosen_idx != 0 {
-                used += 1;
-            }
-        }
-        for i in prefix.len()..x.trace.len() {
-            let p = &x.trace[i];
-            let cost = before[i] + if p.running_enabled { 1 } else { 0 };
-            if cost > self.bound {
-                if p.enabled.len() > 1 {
-                    self.pruned = true;
+    /// One round at the current preemption bound. Executions are forked children, up to
+    /// `WORKERS` at a time; completions are consumed strictly in submission order, so the set
+    /// of explored schedules and the order in which they are judged do not depend on timing.
+    fn explore(&mut self, root: Vec<usize>) {
+        const WORKERS: usize = 12;
+        let mut stack: Vec<Vec<usize>> = vec![root];
+        let mut running: std::collections::VecDeque<(Vec<usize>, Result<Child, String>)> = std::collections::VecDeque::new();
+        loop {
+            while running.len() < WORKERS && !stack.is_empty() {
+                if self.executions + running.len() as u64 >= self.cap || self.t0.elapsed() > self.wall_cap {
+                    self.capped = true;
+                    stack.clear();
+                    break;
                 }
+                let prefix = stack.pop().unwrap();
+                let threads = self.threads;
+                let p2 = prefix.clone();
+                let child = spawn_child(move || exec_to_json(&execute_here(threads, &p2)).to_string());
+                running.push_back((prefix, child));
+            }
+            let (prefix, child) = match running.pop_front() {
+                Some(j) => j,
+                None => break,
+            };
+            let x = parse_execution(child.and_then(collect_child));
+            self.check(&x);
+            if x.abort.is_some() {
                 continue;
             }
-            for alt in 1..p.enabled.len() {
-                let mut np = ch[..i].to_vec();
-                np.push(alt);
-                self.explore(np);
+            let ch = choices(&x);
+            // preemptions used before each point
+            let mut used = 0usize;
+            let mut before = Vec::with_capacity(x.trace.len());
+            for c in &x.trace {
+                before.push(used);
+                if c.running_enabled && c.chosen_idx != 0 {
+                    used += 1;
+                }
+            }
+            let mut kids: Vec<Vec<usize>> = Vec::new();
+            for i in prefix.len()..x.trace.len() {
+                let p = &x.trace[i];
+                let cost = before[i] + if p.running_enabled { 1 } else { 0 };
+                if cost > self.bound {
+                    if p.enabled.len() > 1 {
+                        self.pruned = true;
+                    }
+                    continue;
+                }
+                for alt in 1..p.enabled.len() {
+                    let mut np = ch[..i].to_vec();
+                    np.push(alt);
+                    kids.push(np);
+                }
+            }
+            // depth-first flavour: the earliest deviation is explored first
+            for k in kids.into_iter().rev() {
+                stack.push(k);
             }
         }
     }
